@@ -85,7 +85,9 @@ class Run:
         self.h["ops"].append(op)
         try:
             r = self._apply(op)
-        except (KeyError, AttributeError, TypeError) as ex:
+        except Exception as ex:  # noqa: BLE001 - an exception out of pyhap is the op's outcome
+            if not dbrig.from_pyhap(ex):
+                raise
             r = {"err": type(ex).__name__}
         self.results.append(r)
         self.snapshot()
@@ -147,6 +149,16 @@ class Run:
     # ------------------------------------------------------------------ final observation + oracle
 
     def observe(self, rng=None) -> dict:
+        """The final observation; an exception escaping from pyhap during it is recorded as the
+        observation (it then differs from the model's), never a harness crash."""
+        try:
+            return self._observe(rng)
+        except Exception as ex:  # noqa: BLE001
+            if not dbrig.from_pyhap(ex):
+                raise
+            return {"results": self.results, "accessories": None, "observation_raised": type(ex).__name__ + ": " + str(ex)[:160]}
+
+    def _observe(self, rng=None) -> dict:
         rig = self.rig
         from pyhap.characteristic import Characteristic
 
@@ -453,8 +465,21 @@ def model_view(m: dict, char_nums, live_objs) -> dict:
     }
 
 
+class ConstructionRaised(Exception):
+    """pyhap raised while the top-level accessory was being built from shipped services."""
+
+
+def new_run(ctx, bridge, main, main_aid) -> "Run":
+    try:
+        return Run(ctx, bridge, main, main_aid)
+    except Exception as ex:  # noqa: BLE001
+        if not dbrig.from_pyhap(ex):
+            raise
+        raise ConstructionRaised(f"{type(ex).__name__}: {str(ex)[:160]}") from None
+
+
 def replay_history(h: dict, ctx: Optional[Ctx] = None):
-    run = Run(ctx, h["bridge"], h["main"], h.get("mainAid", 1))
+    run = new_run(ctx, h["bridge"], h["main"], h.get("mainAid", 1))
     try:
         if h.get("probes") is not None:
             run.h["probes"] = h["probes"]
@@ -520,7 +545,7 @@ def random_history(ctx: Ctx, pool, big: bool = False):
     bridge = rng.random() < 0.8
     main = [dbrig.random_spec(rng, pool) for _ in range(rng.choice([0, 0, 1, 2]))]
     main_aid = 1 if bridge else rng.choice([1, None])
-    run = Run(ctx, bridge, main, main_aid)
+    run = new_run(ctx, bridge, main, main_aid)
     rig = run.rig
     n_ops = rng.randrange(8, 16) if big else rng.randrange(2, 13)
     removed: List[tuple] = []  # (aid, obj number) removed from a manager
@@ -629,13 +654,21 @@ def run(ctx: Ctx):
     runs: List[Run] = []
     obs: List[dict] = []
     for h in boundary_histories(pool):
-        r, o = replay_history(h, ctx)
+        try:
+            r, o = replay_history(h, ctx)
+        except ConstructionRaised as ex:
+            ctx.disagree("c17-construction", h, "the top-level accessory is built", f"pyhap raised {ex}")
+            continue
         runs.append(r)
         obs.append(o)
     n_random = ctx.n(450, 7000)
     n_big = ctx.n(120, 1500)
     for i in range(n_random + n_big):
-        r = random_history(ctx, pool, big=i >= n_random)
+        try:
+            r = random_history(ctx, pool, big=i >= n_random)
+        except ConstructionRaised as ex:
+            ctx.disagree("c17-construction", {"random": i}, "the top-level accessory is built", f"pyhap raised {ex}")
+            continue
         try:
             o = r.observe(ctx.rng)
         finally:
@@ -659,7 +692,7 @@ def run(ctx: Ctx):
         if mv != o:
             key = next((k for k in ("results", "accessories", "managers", "resolve", "probes") if mv.get(k) != o.get(k)), "?")
             ctx.disagree("c17-history:" + key, r.h, _short(mv.get(key)), _short(o.get(key)))
-    for i in (0, 5, len(runs) - 1):
+    for i in sorted({0, min(5, len(runs) - 1), len(runs) - 1} if runs else set()):
         r, o = runs[i], obs[i]
         st.sample(
             {
@@ -683,7 +716,10 @@ def search(ctx: Ctx):
 
     pool = dbrig.spec_pool(Loader())
     for i in range(1200):
-        r = random_history(ctx, pool, big=i % 3 == 0)
+        try:
+            r = random_history(ctx, pool, big=i % 3 == 0)
+        except ConstructionRaised:
+            continue
         try:
             r.observe(ctx.rng)
         finally:
